@@ -71,6 +71,10 @@ def scenario_st(draw, inherited=False, max_steps=4, min_steps=0, **kw):
             "steps": draw(steps_st(min_steps, max_steps, inherited=inherited, **kw))}
 
 
+# cell values of a tag column: the rendered tag keeps letters and digits of any script
+TAG_CELLS = TAGS + [u"z\u00fcrich", u"\u6771\u4eac"]
+
+
 @st.composite
 def outline_st(draw, inherited=False, max_steps=3, outcomes=None, **kw):
     outcomes = outcomes or OUTCOMES
@@ -97,7 +101,7 @@ def outline_st(draw, inherited=False, max_steps=3, outcomes=None, **kw):
             if o == "raise" and draw(st.integers(0, 2)) == 0:
                 o = "raise_timeout"
             cell = {"x": PHRASE[o],
-                    tcol: draw(st.sampled_from(TAGS))}
+                    tcol: draw(st.sampled_from(TAG_CELLS))}
             rows.append([cell[c] for c in order])
         examples.append({"tags": draw(tags_st(1)), "cols": list(order), "rows": rows,
                          "name": draw(st.sampled_from([u"", u"E1", u"ex two"]))})
